@@ -946,6 +946,18 @@ def exhaustive_histories(tier):
         doms.append(("all histories of depth 4 from the empty automaton, %d-step core alphabet "
                      "(one case = a depth-3 prefix extended by each of the %d steps)"
                      % (len(core), len(core)), d4))
+    # pruning to the recurrent core on EVERY functional graph on 4 vertices (each vertex has
+    # at most one outgoing edge, label 'a'; 5^4 = 625 graphs, every shape of dead-end chain in
+    # every position of the insertion order), in place and copying, followed by a query
+    rec = []
+    for tgt in itertools.product([None, 0, 1, 2, 3], repeat=4):
+        graph = [[v, ([["a", tgt[v]]] if tgt[v] is not None else [])] for v in range(4)]
+        for inplace in (0, 1):
+            rec.append(dict(nv=4, nl=1, init=dict(route="dict", graph=graph, start=[0]),
+                            steps=[dict(op="recurrent", a=[inplace, 0, 0, 0, 0, 0, 0, 0]),
+                                   dict(op="q_pairs", a=[0, 1, 2, 3, 0, 0, 0, 0])]))
+    doms.append(("recurrent() in place / copying on all 625 functional graphs on 4 vertices",
+                 rec))
     return doms
 
 
